@@ -459,7 +459,8 @@ class TimeseriesBlocks:
             idx = time == self.dset.time.utc.datetime[idx_sta]
             line = " "
             for name, field in self.data_field_types.items():
-                line += f"{{:{DATA_TYPES[name].format}}}".format(attrgetter(field)(self.dset)[idx_sta][idx][0])
+                # A one-row position delta converted to another system comes back without its row dimension
+                line += f"{{:{DATA_TYPES[name].format}}}".format(np.atleast_1d(attrgetter(field)(self.dset))[idx_sta][idx][0])
             self.fid.write(f"{line}\n")
         self.fid.write("-TIMESERIES/DATA\n")
 
